@@ -9,6 +9,16 @@ EXTENDS RealBanks, National, Bundesbank
 Trace == JsonDeserialize(IOEnv.VERIF_TRACE)
 VARIABLE l
 
+\* which algorithm objects the code under test registers (data read off the live dictionary
+\* schwifty.checksum.algorithms): [de |-> <<method ids>>, nat |-> <<country code points>>].
+\* A method / country that the code implements but this specification does not know is not
+\* judged (a newly added algorithm must not raise an alarm); one that the specification knows
+\* and the code has dropped is judged as "no algorithm" only for German methods (the property
+\* speaks of methods "the library implements"), while the 22 countries are named by the property.
+CodeAlgos == JsonDeserialize(IOEnv.VERIF_ALGOS)
+CodeMethods == {CodeAlgos.de[i] : i \in 1..Len(CodeAlgos.de)}
+CodeCountries == {<<CodeAlgos.nat[i][1], CodeAlgos.nat[i][2]>> : i \in 1..Len(CodeAlgos.nat)}
+
 DE == <<68, 69>>
 
 \* the Bundesbank method ids the registry lists for a German bank code
@@ -30,9 +40,11 @@ NatExpect(s) ==
                   IN  IF ~Listed(code) \/ ms = {} THEN "accept"
                       ELSE IF Cardinality(ms) > 1 THEN "unsettled"
                       ELSE LET m == CHOOSE x \in ms : TRUE
-                           IN  IF m \notin Implemented THEN "accept"
+                           IN  IF m \notin Implemented THEN (IF m \in CodeMethods THEN "unsettled" ELSE "accept")
+                               ELSE IF m \notin CodeMethods THEN "accept"
                                ELSE IF MethodUnsettled(m, acct) THEN "unsettled"
                                ELSE IF MethodOK(m, acct) THEN "accept" ELSE "reject"
+        ELSE IF cc \in CodeCountries THEN "unsettled"   \* an algorithm this specification does not know
         ELSE "accept"                                  \* countries without a national algorithm: unaffected
 
 IbanNatOutcome(e) ==
